@@ -21,7 +21,7 @@ example : ∃ (i j : Nat) (p q : Placement) (it : Item), i < j ∧ exItems[i]? =
   ⟨0, 2, ⟨0, 0⟩, ⟨0, 9⟩, _, by omega, rfl, by rw [load_eq_spec]; decide, by rw [load_eq_spec]; decide, rfl⟩
 
 /-- which entries of the link loop can write a given byte of item `i`: only item `i` itself -/
-private theorem covers_only_self (env : Env) (items : List Item) (i : Nat) (p : Placement) (it : Item)
+theorem covers_only_self (env : Env) (items : List Item) (i : Nat) (p : Placement) (it : Item)
     (hi : items[i]? = some it) (hp : (load items).pl[i]? = some (some p)) (k : Nat) (hk : k < it.plSize)
     (z : Item × Option Placement) (hz : z ∈ items.zip (load items).pl)
     (hcov : covers env (load items).pl z p.sec (p.off + k)) : z = (it, some p) := by
